@@ -78,8 +78,12 @@ for text, field, node, fields in T:
     else:
         n = f'as(yyVAL.{field}, "*ast.{node}")'
         conj = [f'typeis(yyVAL.{field}, "*ast.{node}")', f'{n} != nil', f'fresh({n})'] + [f'{n}.{f} == {slot(v)}' for f, v in fields.items()]
-    out += [f'//@ func action["{text}"]', '//@ props C03', f'//@ requires shape: yyVAL != nil && len(yyDollar) == {k + 1}',
-            '//@ modifies *', f'//@ ensures [C03] node: ' + " && ".join(conj), '']
+    # ASSUMPTION (driver + grammar): an operand slot of a production holds the non-nil node its own action built
+    nonnil = [f'yyDollar[{v[1]}].expr != nil' for v in fields.values() if v[0] == "e"] + [f'yyDollar[{v[1]}].{v[2]} != nil' for v in fields.values() if v[0] == "op"]
+    out += [f'//@ func action["{text}"]', '//@ props C03', f'//@ requires shape: yyVAL != nil && len(yyDollar) == {k + 1}']
+    if nonnil:
+        out += ['//@ requires operands: ' + " && ".join(nonnil)]
+    out += ['//@ modifies *', f'//@ ensures [C03] node: ' + " && ".join(conj), '']
 # literals: the number actions hand the spelled digits (with the '-' the grammar saw) to toNumber and build the literal node
 # from its result
 LIT = 'as(yyVAL.expr_literals, "*ast.LiteralExpr")'
